@@ -99,6 +99,20 @@ func checkNALU(n N) error {
 	if err != nil || !bytes.Equal(vb, want) {
 		return fmt.Errorf("NAL value marshals to %x.., want %x.. (err %v)", vb[:1], want[:1], err)
 	}
+	// marshalled bytes belong to the application: it overwrites them (and their spare capacity), the values marshal as before
+	hb, herr := v.NALUHeader.MarshalBinary()
+	if herr != nil || len(hb) != 1 || hb[0] != want[0] {
+		return fmt.Errorf("NAL header marshals to %x (err %v), want %02x", hb, herr, want[0])
+	}
+	ev.Trash(out)
+	ev.Trash(vb)
+	ev.Trash(hb)
+	if again, err := v.MarshalBinary(); err != nil || !bytes.Equal(again, want) {
+		return fmt.Errorf("after the application overwrote the bytes of earlier results the NAL value marshals to %x.. (%d bytes, err %v), want %x.. (%d bytes)", head(again), len(again), err, head(want), len(want))
+	}
+	if again, err := u.MarshalBinary(); err != nil || !bytes.Equal(again, want) {
+		return fmt.Errorf("after the application overwrote the bytes of earlier results the decoded NAL unit marshals to %x.. (%d bytes, err %v), want %x.. (%d bytes)", head(again), len(again), err, head(want), len(want))
+	}
 	return nil
 }
 
@@ -171,6 +185,9 @@ func checkRecord(c RCase) error {
 	refBytes := avccref.Write(c.ref())
 	// (1) canonical bytes (independent writer, any compatibility byte) -> library -> same bytes
 	v := avc.NewAVCDecoderConfigurationRecord()
+	if c.Level%3 == 0 {
+		v = &avc.AVCDecoderConfigurationRecord{} // a record declared by the application and filled by UnmarshalBinary
+	}
 	if err := v.UnmarshalBinary(refBytes); err != nil {
 		return fmt.Errorf("library rejects the ISO writer's record %x..: %v", head(refBytes), err)
 	}
@@ -243,11 +260,19 @@ func checkRecord(c RCase) error {
 	if !bytes.Equal(out, refBytes) {
 		return fmt.Errorf("the bytes MarshalBinary returned for one record changed when another record was marshalled (offset %d)", firstDiff(out, refBytes))
 	}
+	ev.Trash(out)
+	ev.Trash(wb)
+	if again, err := v.MarshalBinary(); err != nil || !bytes.Equal(again, refBytes) {
+		return fmt.Errorf("after the application overwrote the bytes of earlier results the record marshals differently (offset %d, err %v)", firstDiff(again, refBytes), err)
+	}
 	// (3) with the high-profile extension appended (documented as ignored)
 	if c.Ext {
 		r := c.ref()
 		r.Ext, r.Chroma, r.BitDepthLuma, r.BitDepthChr = true, 1, 0, 0
-		r.SPSExt = [][]byte{{0x6d, 1, 2}}
+		r.SPSExt = nil
+		for i := 0; i < int(c.Level)%4; i++ {
+			r.SPSExt = append(r.SPSExt, [][]byte{{0x6d, 1, 2}, {0x6d, 0xff, 0xff}, {0x6d, 9, 0xff, 0xff, 0xff}}[i])
+		}
 		e := avc.NewAVCDecoderConfigurationRecord()
 		if err := e.UnmarshalBinary(avccref.Write(r)); err != nil {
 			return fmt.Errorf("record with the high-profile extension rejected: %v", err)
@@ -423,6 +448,11 @@ func checkSample(c SCase) error {
 	}
 	if !bytes.Equal(b, ref) {
 		return fmt.Errorf("the bytes MarshalBinary returned for one sample changed when another sample was marshalled (offset %d)", firstDiff(b, ref))
+	}
+	ev.Trash(b)
+	ev.Trash(b2)
+	if again, err := s.MarshalBinary(); err != nil || !bytes.Equal(again, ref) {
+		return fmt.Errorf("after the application overwrote the bytes of earlier results the sample marshals differently (offset %d, err %v)", firstDiff(again, ref), err)
 	}
 	return nil
 }
